@@ -190,7 +190,7 @@ AfterComments(i0, h) ==
   LET i == IF h THEN i0 ELSE SkipWS(i0) IN
   IF ~AtEnd(i) /\ Ch(i) = 123 /\ Ch(i + 1) = 123 /\ Ch(i + 2) = 45 /\ Ch(i + 3) = 45 /\ i + 3 <= N
   THEN LET k == SkipComment(i + 2) IN
-       IF k = 0 THEN [i |-> i, h |-> h, open |-> TRUE] ELSE AfterComments(k, TRUE)
+       IF k = 0 THEN [i |-> i, h |-> h, open |-> TRUE] ELSE AfterComments(k, h)       \* a comment leaves the mode as it was
   ELSE [i |-> i, h |-> h, open |-> FALSE]
 
 Step ==
@@ -290,8 +290,10 @@ WSThenComments(i, j) == IF i > j THEN TRUE
                         ELSE IF IsWS(Ch(i)) THEN WSThenComments(i + 1, j)
                         ELSE CommentsOnly(i, j)
 HasComment(i, j) == \E k \in i..j : Ch(k) = 123 /\ Ch(k + 1) = 123 /\ Ch(k + 2) = 45 /\ Ch(k + 3) = 45
+\* (C19: "the gaps between tokens hold only whitespace inside code or comments". After a text token there is no code, so
+\* the gap holds comments only; before a text token that follows a non-text token, white space alone would belong to the text.)
 GapOK(a, b, i, j) == IF a = "HTML" THEN CommentsOnly(i, j)
-                     ELSE WSThenComments(i, j) /\ (b = "HTML" => (i > j \/ HasComment(i, j)))
+                     ELSE BlankOrComment(i, j) /\ (b = "HTML" => (i > j \/ HasComment(i, j)))
 GapsBlank(ts) == /\ \A k \in 1..Len(ts) - 1 : GapOK(ts[k].t, ts[k + 1].t, ts[k].e + 1, ts[k + 1].s - 1)
                  /\ Len(ts) > 0 => CommentsOnly(1, ts[1].s - 1)
 EOFAtEnd(ts) == \A k \in 1..Len(ts) : ts[k].t = "EOF" => (k = Len(ts) /\ ts[k].s = N + 1 /\ ts[k].e = N + 1)
